@@ -11,7 +11,7 @@ M = "harness.c12"
 
 def bounds(tier):
     return {"quick": "row <= 5 chars; line = indent<=1 + '|' + body<=4 + terminator; cell text <= 4; tables <= 4 rows x <= 3 cells",
-            "thorough": "row <= 7 chars (25 class-prefix partitions); body <= 5; cell text <= 5"}[tier]
+            "thorough": "row <= 7 chars (25 class-prefix partitions); body <= 4; cell text <= 4"}[tier]
 
 
 def conditions(tier):
@@ -25,8 +25,8 @@ def conditions(tier):
             for b in range(5):
                 cs.append(Cond(M, "split_equals_reference", {"maxlen": 7, "classes": [a, b]}, T=1500))
         cs.append(Cond(M, "split_equals_reference", {"maxlen": 1}, T=60))
-        cs.append(Cond(M, "cells_equal_reference", {"maxlen": 5, "maxind": 2, "maxtail": 2}, T=3000))
-        cs.append(Cond(M, "cell_round_trip", {"maxlen": 5}, T=3000, reach=["linefeed-in-cell"]))
+        cs.append(Cond(M, "cells_equal_reference", {"maxlen": 4, "maxind": 1, "maxtail": 2}, T=2400))
+        cs.append(Cond(M, "cell_round_trip", {"maxlen": 4}, T=2400, reach=["linefeed-in-cell"]))
     cs.append(Cond(M, "rectangular", T=120, reach=["ragged"]))
     # reachability / falsity twins: each must be refuted with a replayable witness
     for f in ("split_twin_never_two_cells", "split_twin_no_linefeed", "split_twin_no_backslash_kept",
